@@ -1115,6 +1115,13 @@ func main() {
 	if focus == "" {
 		focus = "C05"
 	}
+	if focus == "C05race" {
+		nr := r.N(24, 600)
+		vh.Parallel(nr, 8, func(i int) { completionRace(r, i) })
+		r.Require("completion_race_trials", int64(nr/2))
+		r.Finish("directed schedule on the directory store (binary built with the filesystem shim): an expired unreferenced copy of a blob, the same content uploaded again through a session, a collection held by the shim right before it removes the old copy while the completing PUT is let go; a PUT answered 201 means the blob is served afterwards; a case is one trial", "completion_race_trials", "completion_outcomes")
+		return
+	}
 	if focus == "C05conc" {
 		if strings.HasPrefix(r.Variant(), "vsync") {
 			vsync.SetJitter(true, uint64(r.Seed)*0x9e3779b97f4a7c15+5)
